@@ -20,7 +20,7 @@ PROP = "C13"
 ENGINE = "xfrsim"
 LEVEL = "exploration"
 TIERS = {
-    "quick": {"runs": 14000, "budget_s": 75},
+    "quick": {"runs": 80000, "budget_s": 75},
     "thorough": {"runs": 1000000, "budget_s": 1500},
 }
 DET_EVERY = 50
